@@ -7,7 +7,6 @@ import (
 	"testing"
 
 	kmip "github.com/ovh/kmip-go"
-	"github.com/ovh/kmip-go/ttlv"
 	"pgregory.net/rapid"
 
 	"verif/harness/evid"
@@ -33,51 +32,60 @@ func freshLike(msg any) any {
 	return &kmip.ResponseMessage{}
 }
 
-// c05Check: encode side (gating per pinned table) and decode side (later elements accepted).
-func c05Check(msg any, ver kmip.ProtocolVersion) (sig string, ref *ttlvref.Node, enc []byte, err error) {
+// c05Check: encode side (gating per pinned table) and decode side (later elements accepted), in one encoding.
+func c05Check(enc string, msg any, ver kmip.ProtocolVersion) (sig string, ref *ttlvref.Node, out []byte, err error) {
 	w := &refwalk.Walker{Ver: &refwalk.Version{Major: int(ver.ProtocolVersionMajor), Minor: int(ver.ProtocolVersionMinor)}}
 	ref, err = w.Message(msg)
 	if err != nil {
 		return "harness-refwalk", nil, nil, err
 	}
-	if err := safely(func() error { enc = ttlv.MarshalTTLV(msg); return nil }); err != nil {
-		return "encode-panic", ref, nil, err
+	if err := safely(func() error { out = append([]byte{}, libMarshal(enc, msg)...); return nil }); err != nil {
+		return "encode-panic:" + enc, ref, nil, err
 	}
-	parsed, perr := ttlvref.Parse(enc, ttlvref.Strict)
+	var parsed *ttlvref.Node
+	var perr error
+	if enc == "binary" {
+		parsed, perr = ttlvref.Parse(out, ttlvref.Strict)
+	} else {
+		parsed, perr = parseText(enc, out)
+	}
 	if perr != nil {
-		return "encoding-malformed", ref, enc, perr
+		return "encoding-malformed:" + enc, ref, out, perr
 	}
 	if d := ttlvref.Diff(ref, parsed); d != "" {
-		return "gating-differs:" + diffKind(d), ref, enc, fmt.Errorf("encoding at version %s differs from the pinned gating (reference vs library): %s", ver, d)
+		return "gating-differs:" + enc + ":" + diffKind(d), ref, out, fmt.Errorf("%s encoding at version %s differs from the pinned gating (reference vs library): %s", enc, ver, d)
 	}
 	// decode direction: every populated element on the wire although the header says ver
 	w2 := &refwalk.Walker{Ver: w.Ver, NoGate: true}
 	full, err := w2.Message(msg)
 	if err != nil {
-		return "harness-refwalk", ref, enc, err
+		return "harness-refwalk", ref, out, err
 	}
-	wire := ttlvref.Write(full)
+	wire := refEncode(full, enc)
 	m2 := freshLike(msg)
-	if err := safely(func() error { return ttlv.UnmarshalTTLV(wire, m2) }); err != nil {
-		return "decode-rejects-later-elements:" + errKind(err), full, wire, fmt.Errorf("decoder at version %s rejects later-version elements present on the wire: %w", ver, err)
+	if err := safely(func() error { return libUnmarshal(enc, wire, m2) }); err != nil {
+		return "decode-rejects-later-elements:" + enc + ":" + errKind(err), full, wire, fmt.Errorf("%s decoder at version %s rejects later-version elements present on the wire: %w", enc, ver, err)
 	}
 	if d := gen.Diff(msg, m2); d != "" {
-		return "decode-loses-later-elements:" + pathKind(d), full, wire, fmt.Errorf("decoder at version %s does not return later-version elements: %s", ver, d)
+		return "decode-loses-later-elements:" + enc + ":" + pathKind(d), full, wire, fmt.Errorf("%s decoder at version %s does not return later-version elements: %s", enc, ver, d)
 	}
-	return "", ref, enc, nil
+	return "", ref, out, nil
 }
 
 func TestC05Gating(t *testing.T) {
 	const name = "TestC05Gating"
 	rec := evid.New("C05", name, "for a drawn row of the pinned version table (61 fields in 20 structures) and a drawn version 1.0..1.4, a message forced to contain the owning structure "+
-		"(directed operation/attribute/key-block choice) with random surroundings and later-version fields left populated; "+
+		"(directed operation/attribute/key-block choice) with random surroundings and later-version fields left populated, in a drawn encoding (binary, XML, JSON; text documents are read by the independent parsers); "+
 		"non-trivial = some gated field is populated and the header version is lower than its first version; distinct by (populated gated rows, version, reference encoding)").Attach(t)
 	covered := map[string]bool{}
+	coveredEnc := map[string]bool{}
 	rapid.Check(t, func(rt *rapid.T) {
 		row := rapid.SampledFrom(versionRows).Draw(rt, "row")
 		ver := rapid.SampledFrom(gen.Versions).Draw(rt, "version")
 		owner := row[:strings.IndexByte(row, '.')]
-		o := gen.MsgOpts{PopulateAll: rapid.IntRange(0, 2).Draw(rt, "populateAll") > 0}
+		enc := rapid.SampledFrom(encodings).Draw(rt, "encoding")
+		o := gen.MsgOpts{PopulateAll: rapid.IntRange(0, 2).Draw(rt, "populateAll") > 0, TextSafe: true,
+			Alphabet: map[string]string{"binary": "utf8", "xml": "xml", "json": "json"}[enc]}
 		msg, _ := gen.Directed(rt, owner, ver, o)
 		rows := gen.PopulatedRows(msg)
 		nt := false
@@ -91,20 +99,29 @@ func TestC05Gating(t *testing.T) {
 			l := fmt.Sprintf("%s@%s", r, ver)
 			labels = append(labels, l)
 			covered[l] = true
+			coveredEnc[l+"/"+enc] = true
 		}
-		sig, ref, enc, err := c05Check(msg, ver)
+		sig, ref, out, err := c05Check(enc, msg, ver)
+		labels = append(labels, "enc="+enc)
 		if ref != nil {
-			rec.Case(nt, ttlvref.Write(ref), labels...)
+			rec.Case(nt, append([]byte(enc), ttlvref.Write(ref)...), labels...)
 			if nt && rec.WantSample() && ref.Count() < 50 {
 				rec.Sample(map[string]any{"row": row, "version": ver.String(), "expected_tree_at_version": ref.String()})
 			}
 		}
 		if err != nil {
-			rec.Fail(rt, name, sig, err, mkMsgCase("row="+row, ver, ref, enc))
+			c := mkMsgCase("row="+row+" enc="+enc, ver, ref, nil)
+			if enc == "binary" {
+				c.LibHex = fmt.Sprintf("%x", out)
+			} else {
+				c.LibHex = string(out)
+			}
+			rec.Fail(rt, name, sig, err, c)
 		}
 	})
 	rec.Set("row_x_version_populated_covered", len(covered))
 	rec.Set("row_x_version_total", len(versionRows)*len(gen.Versions))
+	rec.Set("row_x_version_x_encoding_covered", len(coveredEnc))
 	var missing []string
 	for _, r := range versionRows {
 		for _, v := range gen.Versions {
